@@ -95,6 +95,30 @@ impl Scenario for Conform {
     }
     fn make(&self, seed: u64, case: u64, _tier: Tier) -> Trial {
         let mut rng = Rng::new(seed);
+        // one link with more than 2^16 RDHs (counters of packets per link wider than 16 bits): one case of the quick
+        // tier, 1 in 50 000 otherwise
+        let long_link = match _tier {
+            Tier::Quick => case == 4242,
+            Tier::Thorough => case % 50_000 == 4242,
+        };
+        if long_link {
+            let mut cfg = GenCfg::swarm(&mut rng, false);
+            cfg.n_links = 1;
+            cfg.hbfs = (22_000, 22_400);
+            cfg.data_pages = (2, 2);
+            cfg.triggers = (1, 1);
+            cfg.data_words = (0, 1);
+            cfg.p_split = 0;
+            cfg.p_cdw = 0;
+            let st = gen_conforming(&cfg, &mut rng);
+            let m = *rng.pick(&[2usize, 3]);
+            let mut spec = specgen::spec(pick_input_mode(&mut rng), &s(CHECK_MODES[m]), st.bytes());
+            let packets = st.total_packets() as u64;
+            spec.step_budget = 20_000_000 + packets * 12;
+            spec.expected_steps = packets * 3;
+            spec.timeout_ms = 600_000;
+            return Trial::Conform { spec, label: format!("{} more than 2^16 RDHs on one link", CHECK_MODES[m].join(" ")) };
+        }
         let mode_i = (case % 5) as usize;
         let stave = mode_i == 4;
         let mut cfg = GenCfg::swarm(&mut rng, stave);
